@@ -30,6 +30,10 @@ structure Titration where
   cls : AA → Int
   pKa : AA → Rat
 
+/-- the titration table of a tables set: classes + pKa as numerator/denominator pairs -/
+def titrOf (cls : AA → Int) (pka : AA → Option (Int × Nat)) : Titration :=
+  { cls := cls, pKa := fun a => match pka a with | some nd => (nd.1 : Rat) / (nd.2 : Rat) | none => 0 }
+
 /-- `charge_at_pH(pH, mode)`: one pass over the sequence, adding each titratable residue's term;
     returns (total, number of titratable residues) -/
 def chargeLoop (tt : Titration) (total : Bool) (pH : α) (s : Seq) : α × Nat :=
